@@ -25,6 +25,7 @@ type gInfo struct {
 	topKFR    bool   // innermost frame is keysFromRemote (i.e. blocked in its select)
 	atGate    bool   // some frame is the fake endpoint's RoundTrip
 	atSched   bool   // some frame is sched.Point: the goroutine is held at a yield point by the schedule
+	inPreempt bool   // some frame is sched.Preempt (a helper of the harness that waits for its caller)
 	inLib     bool   // some frame is a function of the library under test
 	libTop    string // innermost library function on the stack (for witnesses)
 	createdBy string // function that created it
@@ -32,7 +33,8 @@ type gInfo struct {
 }
 
 type snapshot struct {
-	seq int64 // mon.Seq stamp taken after the dump
+	seq int64 // mon.Seq stamp taken just before the dump began: everything stamped earlier is reflected in it
+	end int64 // mon.Seq stamp taken after the dump: everything stamped later happened after it
 	gs  map[int64]*gInfo
 }
 
@@ -42,6 +44,7 @@ var (
 	kfrSuffix  = []byte(".(*remoteKeySet).keysFromRemote")
 	gateSuffix = []byte("fakejwks.(*Server).RoundTrip")
 	schedPoint = []byte("verif/internal/sched.Point")
+	schedPre   = []byte("verif/internal/sched.Preempt")
 	libPrefix  = []byte("github.com/zitadel/oidc/")
 	goroutineP = []byte("goroutine ")
 	createdP   = []byte("created by ")
@@ -126,6 +129,9 @@ func parseDump(b []byte) map[int64]*gInfo {
 		if bytes.Equal(fn, schedPoint) {
 			g.atSched = true
 		}
+		if bytes.HasPrefix(fn, schedPre) {
+			g.inPreempt = true
+		}
 		if bytes.HasPrefix(fn, libPrefix) {
 			if !g.inLib {
 				g.libTop = string(fn)
@@ -150,6 +156,19 @@ func (g *gInfo) stable() bool {
 		}
 	}
 	return false
+}
+
+// pureWait: the goroutine waits for another goroutine and for nothing else: a lock, a condition, a channel operation
+// outside a select - or one of the harness's own selects, which contain no timer that matters (the gate of the fake
+// endpoint, the preemption helper waiting for its caller). A select of the library may hold a timer case and is not pure.
+func (g *gInfo) pureWait() bool {
+	if !g.stable() {
+		return false
+	}
+	if strings.HasPrefix(g.state, "select") {
+		return (g.atGate && !g.topKFR) || g.inPreempt || g.state == "select (no cases)"
+	}
+	return true
 }
 
 // spawnedByKeySet: a goroutine started from inside keysFromRemote (the download goroutine).
@@ -177,7 +196,7 @@ func takeSnapshot(after int64) *snapshot {
 	for {
 		n := runtime.Stack(dumpBuf, true)
 		if n < len(dumpBuf) {
-			s := &snapshot{seq: start, gs: parseDump(dumpBuf[:n])}
+			s := &snapshot{seq: start, end: mon.Seq(), gs: parseDump(dumpBuf[:n])}
 			lastSnap = s
 			dumps++
 			dumpNs += int64(time.Since(t0))
